@@ -155,6 +155,12 @@ type Client struct {
 	// NewSession may write on it. Senders hold the read side for the duration of their write.
 	sendGate   sync.RWMutex
 	sendClosed bool
+
+	// The quit channel of the keepalive started for the current connection and what closes it, once, whoever
+	// asks first: the receiver when the connection is over, or Disconnect before it closes the stream.
+	keepaliveMu   sync.Mutex
+	keepaliveQuit chan struct{}
+	keepaliveStop func()
 }
 
 /*
@@ -250,7 +256,7 @@ func (c *Client) Connect() error {
 	}
 
 	// Start the keepalive go routine
-	keepaliveQuit := make(chan struct{})
+	keepaliveQuit := c.newKeepaliveQuit()
 	go keepalive(c.transport, c.config.KeepaliveInterval, keepaliveQuit)
 	// Start the receiver go routine
 	go c.recv(keepaliveQuit)
@@ -327,7 +333,7 @@ func (c *Client) Resume() error {
 	}
 
 	// The new connection needs its own keepalive and receiver go routines, as in Connect.
-	keepaliveQuit := make(chan struct{})
+	keepaliveQuit := c.newKeepaliveQuit()
 	go keepalive(c.transport, c.config.KeepaliveInterval, keepaliveQuit)
 	go c.recv(keepaliveQuit)
 	return err
@@ -352,8 +358,38 @@ func (c *Client) closeUnattendedSession() {
 	c.Disconnect()
 }
 
+// newKeepaliveQuit makes the quit channel of the keepalive of a new connection and remembers how to close it.
+func (c *Client) newKeepaliveQuit() chan struct{} {
+	quit := make(chan struct{})
+	var once sync.Once
+	c.keepaliveMu.Lock()
+	c.keepaliveQuit, c.keepaliveStop = quit, func() { once.Do(func() { close(quit) }) }
+	c.keepaliveMu.Unlock()
+	return quit
+}
+
+// keepaliveStopper returns what closes quit exactly once: the client's own closer when quit is the channel of
+// its current keepalive (Disconnect may have used it already), a closer of its own otherwise.
+func (c *Client) keepaliveStopper(quit chan<- struct{}) func() {
+	c.keepaliveMu.Lock()
+	defer c.keepaliveMu.Unlock()
+	if c.keepaliveQuit != nil && (chan<- struct{})(c.keepaliveQuit) == quit {
+		return c.keepaliveStop
+	}
+	var once sync.Once
+	return func() { once.Do(func() { close(quit) }) }
+}
+
 // Disconnect disconnects the client from the server, sending a stream close nonza and closing the TCP connection.
 func (c *Client) Disconnect() error {
+	// The session ends here: nothing is sent behind the closing stream tag (RFC 6120 4.4), and closing the
+	// transport may wait for the server's closing tag for up to ConnectTimeout. The keepalive stops first.
+	c.keepaliveMu.Lock()
+	stop := c.keepaliveStop
+	c.keepaliveMu.Unlock()
+	if stop != nil {
+		stop()
+	}
 	if c.transport != nil {
 		return c.transport.Close()
 	}
@@ -509,8 +545,7 @@ func (c *Client) recv(keepaliveQuit chan<- struct{}) {
 	// The keepalive of this connection stops as soon as the connection is known to be over, before the loss is
 	// reported: the Disconnected handler of a StreamManager only returns once a new session is up, and a keepalive
 	// still ticking meanwhile pings a transport that is being reconnected (a nil connection after a refused dial).
-	var stopOnce sync.Once
-	stopKeepalive := func() { stopOnce.Do(func() { close(keepaliveQuit) }) }
+	stopKeepalive := c.keepaliveStopper(keepaliveQuit)
 	defer stopKeepalive()
 
 	// This receiver serves one connection: the one the transport holds now. The transport object is shared by the
